@@ -31,6 +31,11 @@ def main():
     assert rc == 0, out
     tgt = wt + "-target"
     env = {"CARGO_TARGET_DIR": tgt}
+    denv = dict(env)
+    if any("--cfg woodpile_verif" in c for c in meta.get("commands", [])):
+        # the demonstration drives the cfg-gated test hooks
+        denv["RUSTFLAGS"] = "--cfg woodpile_verif"
+        denv["CARGO_TARGET_DIR"] = tgt + "-cfg"
     result = dict(confirmed=False)
     try:
         demo_rel = meta["demo_path"]
@@ -42,12 +47,14 @@ def main():
         # without the change: demo passes
         os.makedirs(os.path.dirname(os.path.join(wt, demo_rel)), exist_ok=True)
         shutil.copy(demo_src, os.path.join(wt, demo_rel))
-        rc0, out0 = sh("cargo test -p %s --test %s --offline" % (crate, testname), cwd=wt, env=env)
+        rc0, out0 = sh("cargo test -p %s --test %s --offline" % (crate, testname), cwd=wt, env=denv)
+        if "running 0 tests" in out0 and "test result: ok. 0 passed" in out0.split("Running")[-1]:
+            rc0 = 1  # an empty demo proves nothing
         result["demo_without_change_passes"] = rc0 == 0
         # with the change
         rc, out = sh("git apply %s" % os.path.join(os.path.abspath(src), "patch.diff"), cwd=wt)
         assert rc == 0, "patch does not apply: " + out
-        rc1, out1 = sh("cargo test -p %s --test %s --offline" % (crate, testname), cwd=wt, env=env)
+        rc1, out1 = sh("cargo test -p %s --test %s --offline" % (crate, testname), cwd=wt, env=denv)
         result["demo_with_change_fails"] = rc1 != 0
         os.remove(os.path.join(wt, demo_rel))
         rc2, out2 = sh("cargo test --workspace --no-fail-fast --offline", cwd=wt, env=env)
@@ -64,6 +71,7 @@ def main():
     finally:
         sh("git -C /repo worktree remove --force %s" % wt)
         shutil.rmtree(tgt, ignore_errors=True)
+        shutil.rmtree(tgt + "-cfg", ignore_errors=True)
         for d in os.listdir(os.path.join(ROOT, "work")) if os.path.isdir(os.path.join(ROOT, "work")) else []:
             if d.startswith("target-"):
                 shutil.rmtree(os.path.join(ROOT, "work", d), ignore_errors=True)
